@@ -44,7 +44,7 @@ public:
             qDeleteAll(client->d->extensions);
             client->d->extensions.clear();
         }
-        client->logger()->setLoggingType(QXmppLogger::NoLogging);
+        client->logger()->setLoggingType(qEnvironmentVariableIsSet("VERIF_LOG") ? QXmppLogger::StdoutLogging : QXmppLogger::NoLogging);
         QObject::connect(client.get(), &QXmppClient::connected, this, [this] { ++connectedSignals; events << QStringLiteral("SIG connected"); });
         QObject::connect(client.get(), &QXmppClient::disconnected, this, [this] { ++disconnectedSignals; events << QStringLiteral("SIG disconnected"); });
         QObject::connect(client.get(), &QXmppClient::errorOccurred, this, [this](const QXmppError &e) { ++errorSignals; events << QStringLiteral("SIG error ") + e.description.left(60); });
